@@ -3,6 +3,7 @@ package main
 import (
 	"fmt"
 	"math/big"
+	"os"
 	"strconv"
 	"time"
 
@@ -23,16 +24,33 @@ import (
 //
 // now() is base 3.  Open range ends (zero time.Time) are {"k":-9,"d":0}; an observed instant
 // that is not within 3 ns of a base is {"k":-8,"d":0} ("unmappable").
+//
+// Zone runs (VERIF_C10_ZONE_MIN = offset in minutes): the valuer carries a fixed zone, the
+// midnights 2 and 3 are midnights IN THAT ZONE and zone-less literal forms (dt, date) are written
+// as wall clock in that zone.  The symbolic instants, and with them everything the judge sees,
+// are the same as in a UTC run.
 type c10Mapping struct {
 	bases map[int]time.Time
 	now   time.Time
+	zone  *time.Location
+}
+
+func (m *c10Mapping) valuer() *influxql.NowValuer {
+	if m.zone == time.UTC {
+		return &influxql.NowValuer{Now: m.now}
+	}
+	return &influxql.NowValuer{Now: m.now, Location: m.zone}
 }
 
 func c10Map(edge bool) *c10Mapping {
 	shift := time.Duration(seed()%1000) * 24 * time.Hour
-	m := &c10Mapping{bases: map[int]time.Time{
-		2: time.Date(2000, 1, 1, 0, 0, 0, 0, time.UTC).Add(shift),
-		3: time.Date(2010, 6, 15, 0, 0, 0, 0, time.UTC).Add(shift),
+	zone := time.UTC
+	if z := os.Getenv("VERIF_C10_ZONE_MIN"); z != "" {
+		zone = time.FixedZone("Z"+z, func() int { n, _ := strconv.Atoi(z); return n }()*60)
+	}
+	m := &c10Mapping{zone: zone, bases: map[int]time.Time{
+		2: time.Date(2000, 1, 1, 0, 0, 0, 0, zone).Add(shift),
+		3: time.Date(2010, 6, 15, 0, 0, 0, 0, zone).Add(shift),
 	}}
 	if edge {
 		m.bases[1] = time.Unix(0, influxql.MinTime+1).UTC()
@@ -119,12 +137,13 @@ func c10Resolve(toks []interface{}, m *c10Mapping) []interface{} {
 		case "rfc":
 			out = append(out, c10Tok("str", at.UTC().Format(time.RFC3339Nano), g))
 		case "dt":
-			out = append(out, c10Tok("str", at.UTC().Format("2006-01-02 15:04:05.999999999"), g))
+			out = append(out, c10Tok("str", at.In(m.zone).Format("2006-01-02 15:04:05.999999999"), g))
 		case "date":
+			at = at.In(m.zone)
 			if at.Hour() != 0 || at.Minute() != 0 || at.Second() != 0 || at.Nanosecond() != 0 {
 				panic("c10: date form for an instant that is not midnight")
 			}
-			out = append(out, c10Tok("str", at.UTC().Format("2006-01-02"), g))
+			out = append(out, c10Tok("str", at.Format("2006-01-02"), g))
 		case "dur":
 			n := m.nanos(k, d)
 			if n.Sign() < 0 {
@@ -171,7 +190,7 @@ func c10SplitInto(o M, cond influxql.Expr, m *c10Mapping, withAST bool) {
 	var res influxql.Expr
 	var tr influxql.TimeRange
 	var err error
-	if p := guard(func() { res, tr, err = influxql.ConditionExpr(cond, &influxql.NowValuer{Now: m.now}) }); p != "" {
+	if p := guard(func() { res, tr, err = influxql.ConditionExpr(cond, m.valuer()) }); p != "" {
 		o["panic"] = p
 		return
 	}
